@@ -9,6 +9,7 @@ import Saltpack.Model.Encrypt
 import Saltpack.Model.Decrypt
 import Saltpack.Proofs.ChunkPlan
 import Saltpack.Proofs.Receiver
+import Saltpack.Proofs.EncLemmas
 
 namespace Saltpack.Proofs
 open Saltpack Saltpack.Encrypt
@@ -34,12 +35,422 @@ def NoSpuriousOpen (P : Prims) (v : Version) (eph payloadKey : Bytes) (rs : List
   ∀ j, j < i → (rs.getD j default).hidden = true → ∀ n, Nonce.payloadKeyBox v j = .ok n →
     P.unbox sk (P.boxPub eph) n (P.box eph (rs.getD j default).pub n payloadKey) = none
 
-/-- **C01 round trip, packet level.** -/
+/-! ### the faithful keyring -/
+
+@[simp] theorem fk_import (P : Prims) (sks : List Bytes) (k : Bytes) :
+    (faithfulKeyring P sks).importBoxEphemeralKey k = some k := rfl
+@[simp] theorem fk_lookupPub (P : Prims) (sks : List Bytes) (k : Bytes) :
+    (faithfulKeyring P sks).lookupBoxPublicKey k = some k := rfl
+@[simp] theorem fk_all (P : Prims) (sks : List Bytes) :
+    (faithfulKeyring P sks).getAllBoxSecretKeys = sks := rfl
+
+/-- the candidate list the faithful lookup takes the head of -/
+def lookupList (P : Prims) (sks kids : List Bytes) (o : Nat) : List (Int × Bytes) :=
+  (kids.zipIdx o).filterMap (fun x =>
+    (sks.find? (fun s => P.boxPub s == x.1)).map (fun s => ((x.2 : Int), s)))
+
+theorem fk_lookup (P : Prims) (sks kids : List Bytes) :
+    (faithfulKeyring P sks).lookupBoxSecretKey kids =
+      match (lookupList P sks kids 0).head? with
+      | some (i, s) => (i, some s)
+      | none => (-1, none) := rfl
+
+/-- none of the key ids belongs to a key of the ring: the lookup finds nothing -/
+theorem lookup_none (P : Prims) (sks : List Bytes) (kids : List Bytes)
+    (h : ∀ s ∈ sks, ∀ k ∈ kids, k ≠ P.boxPub s) :
+    (faithfulKeyring P sks).lookupBoxSecretKey kids = (-1, none) := by
+  have hnil : lookupList P sks kids 0 = [] := by
+    unfold lookupList
+    rw [List.filterMap_eq_nil_iff]
+    rintro ⟨k, i⟩ hq
+    have hk : k ∈ kids := List.mem_of_getElem? (List.mem_zipIdx_iff_getElem?.1 hq)
+    have : sks.find? (fun s => P.boxPub s == k) = none := by
+      rw [List.find?_eq_none]
+      intro s hs hbeq
+      exact h s hs k hk (beq_iff_eq.1 hbeq).symm
+    simp [this]
+  rw [fk_lookup, hnil]
+  rfl
+
+theorem lookup_single_aux (P : Prims) (sk : Bytes) :
+    ∀ (kids : List Bytes) (o : Nat), P.boxPub sk ∈ kids →
+      ∃ idx, kids[idx]? = some (P.boxPub sk) ∧
+        (lookupList P [sk] kids o).head? = some (((o + idx : Nat) : Int), sk) := by
+  intro kids
+  induction kids with
+  | nil => intro o h; simp at h
+  | cons k kids ih =>
+    intro o hmem
+    by_cases hk : P.boxPub sk = k
+    · refine ⟨0, by simp [hk], ?_⟩
+      simp [lookupList, List.zipIdx_cons, List.find?_cons, hk]
+    · have hmem' : P.boxPub sk ∈ kids := by
+        rcases List.mem_cons.1 hmem with h | h
+        · exact absurd h hk
+        · exact h
+      obtain ⟨idx, h1, h2⟩ := ih (o + 1) hmem'
+      refine ⟨idx + 1, by simpa using h1, ?_⟩
+      have hf : (([sk] : List Bytes).find? (fun s => P.boxPub s == k)) = none := by
+        simp [hk]
+      have : lookupList P [sk] (k :: kids) o = lookupList P [sk] kids (o + 1) := by
+        unfold lookupList
+        rw [List.zipIdx_cons, List.filterMap_cons]
+        simp only [hf, Option.map_none]
+      rw [this, h2, show o + 1 + idx = o + (idx + 1) by omega]
+
+/-- the single key's id is among the key ids: the lookup answers a position
+    that carries it, and the key -/
+theorem lookup_single (P : Prims) (sk : Bytes) (kids : List Bytes) (h : P.boxPub sk ∈ kids) :
+    ∃ idx : Nat, kids[idx]? = some (P.boxPub sk) ∧
+      (faithfulKeyring P [sk]).lookupBoxSecretKey kids = ((idx : Int), some sk) := by
+  obtain ⟨idx, h1, h2⟩ := lookup_single_aux P sk kids 0 h
+  refine ⟨idx, h1, ?_⟩
+  rw [fk_lookup, h2, Nat.zero_add]
+
+/-! ### what sealing tells us -/
+
+theorem checkReceivers_inv {rs : List Recipient} (h : checkReceivers rs = .ok ()) :
+    rs ≠ [] ∧ (rs.map (·.pub)).Nodup := by
+  unfold checkReceivers at h
+  split at h
+  · cases h
+  · rename_i hne
+    split at h
+    · cases h
+    · split at h
+      · rename_i hd
+        exact ⟨by intro h0; subst h0; simp at hne, hd⟩
+      · cases h
+
+theorem sealPackets_inv (P : Prims) (bs : Nat) (v : Version) (sender : Option Bytes) (rs : List Recipient)
+    (eph pk pt : Bytes) (h : EncHeader) (hb : Bytes) (blks : List EncBlock)
+    (hseal : sealPackets P bs v sender rs eph pk pt = .ok (h, hb, blks)) :
+    checkReceivers rs = .ok () ∧ header P v sender eph pk rs = .ok h ∧
+      ∃ mks, macKeysSender P v (sender.getD eph) eph (P.hash hb) rs 0 = .ok mks ∧
+        blockStructs P v pk (P.hash hb) mks (chunkPlan v bs pt) 0 = .ok blks := by
+  unfold sealPackets at hseal
+  split at hseal
+  · cases hseal
+  · split at hseal
+    · cases hseal
+    · rename_i hcr
+      split at hseal
+      · cases hseal
+      · rename_i h' hh
+        simp only [] at hseal
+        split at hseal
+        · cases hseal
+        · rename_i mks hm
+          split at hseal
+          · cases hseal
+          · rename_i blks' hbl
+            cases hseal
+            exact ⟨hcr, hh, mks, hm, hbl⟩
+
+theorem header_spec (P : Prims) {v : Version} (hv : v = v1 ∨ v = v2) (sender : Option Bytes)
+    (eph pk : Bytes) (rs : List Recipient) (h : EncHeader)
+    (hhdr : header P v sender eph pk rs = .ok h) :
+    h.formatName = Gen.c_sp_FormatName ∧ h.version = v ∧ h.typ = mtEncryption ∧
+    h.ephemeral = P.boxPub eph ∧
+    h.senderSecretbox = P.sbSeal pk Nonce.senderKeySecretBox (P.boxPub (sender.getD eph)) ∧
+    h.receivers.length = rs.length ∧
+    (∀ j (hj : j < rs.length), ∃ n, Nonce.payloadKeyBox v j = .ok n ∧
+      h.receivers[j]? = some ⟨kidSpec rs[j], P.box eph rs[j].pub n pk⟩) ∧
+    h.receivers.map (·.kid) = rs.map kidSpec := by
+  obtain ⟨es, he, hl, hp⟩ := receiverEntries_spec P hv eph pk rs 0
+  unfold header at hhdr
+  simp only [he] at hhdr
+  cases hhdr
+  refine ⟨rfl, rfl, rfl, rfl, rfl, hl, ?_, ?_⟩
+  · intro j hj
+    obtain ⟨n, hn, hj'⟩ := hp j hj
+    exact ⟨n, by simpa using hn, hj'⟩
+  · apply List.ext_getElem?
+    intro j
+    by_cases hj : j < rs.length
+    · obtain ⟨n, _, hj'⟩ := hp j hj
+      simp only [List.getElem?_map]
+      rw [hj', List.getElem?_eq_getElem hj]
+      rfl
+    · simp only [List.getElem?_map]
+      rw [List.getElem?_eq_none (by omega), List.getElem?_eq_none (by omega)]
+      rfl
+
+theorem unbox_box (P : Prims) (hP : P.Lawful) (sk eph n m : Bytes) :
+    P.unbox sk (P.boxPub eph) n (P.box eph (P.boxPub sk) n m) = some m := by
+  simp only [Prims.unbox, Prims.box, hP.dh_comm eph sk, hP.sb_open_seal]
+
+theorem validate_ok (v : Version) (hv : v = v1 ∨ v = v2) (h : EncHeader)
+    (h1 : h.formatName = Gen.c_sp_FormatName) (h2 : h.version = v) (h3 : h.typ = mtEncryption) :
+    Decrypt.validate knownMajor h = .ok () := by
+  simp [Decrypt.validate, h1, h2, h3, knownMajor_of hv]
+
+/-! ### finding the recipient's entry -/
+
+theorem kidSpec_visible {r : Recipient} {k : Bytes} (h : kidSpec r = some k) :
+    r.hidden = false ∧ r.pub = k := by
+  unfold kidSpec at h
+  cases hh : r.hidden with
+  | true => simp [hh] at h
+  | false => simpa [hh] using h
+
+/-- visible recipient: the lookup over the named key ids finds position `i` -/
+theorem tryVisible_hit (P : Prims) (hP : P.Lawful) {v : Version} (hv : v = v1 ∨ v = v2)
+    (sender : Option Bytes) (rs : List Recipient) (eph pk : Bytes) (hpk : pk.length = 32)
+    (hpub : ∀ r ∈ rs, r.hidden = false → r.pub ≠ [])
+    (hnd : (rs.map (·.pub)).Nodup)
+    (i : Nat) (hi : i < rs.length) (sk : Bytes) (hsk : rs[i].pub = P.boxPub sk)
+    (h : EncHeader) (hhdr : header P v sender eph pk rs = .ok h)
+    (hhid : rs[i].hidden = false) :
+    ∃ log, Decrypt.tryVisible P (faithfulKeyring P [sk]) h (P.boxPub eph) =
+      (log, .ok (some (sk, pk, i))) := by
+  obtain ⟨_, h2, _, _, _, h6, h7, _⟩ := header_spec P hv sender eph pk rs h hhdr
+  obtain ⟨n, hn, hei⟩ := h7 i hi
+  have hvis_i : i ∈ Decrypt.visibleIndices h.receivers :=
+    mem_visibleIndices.2 ⟨_, rs[i].pub, hei, by simp [kidSpec, hhid], hpub rs[i] (List.getElem_mem hi) hhid⟩
+  have hkid_i : Decrypt.kidOf (h.receivers.getD i default) = rs[i].pub := by
+    simp [List.getD_eq_getElem?_getD, hei, Decrypt.kidOf, kidSpec, hhid]
+  have hmem : P.boxPub sk ∈ (Decrypt.visibleIndices h.receivers).map
+      (fun i => Decrypt.kidOf (h.receivers.getD i default)) := by
+    rw [← hsk]
+    exact List.mem_map.2 ⟨i, hvis_i, hkid_i⟩
+  obtain ⟨idx, hidx, hlook⟩ := lookup_single P sk _ hmem
+  rw [List.getElem?_map, Option.map_eq_some_iff] at hidx
+  obtain ⟨orig, horig, hg⟩ := hidx
+  obtain ⟨e', k', he', hk', hne'⟩ := mem_visibleIndices.1 (List.mem_of_getElem? horig)
+  have horig_lt : orig < rs.length := by
+    rw [← h6]
+    exact (List.getElem?_eq_some_iff.1 he').1
+  obtain ⟨n', _, heo⟩ := h7 orig horig_lt
+  rw [he'] at heo
+  cases heo
+  obtain ⟨_, hko⟩ := kidSpec_visible hk'
+  have hpe : rs[orig].pub = rs[i].pub := by
+    simp only [List.getD_eq_getElem?_getD, he', Option.getD_some, Decrypt.kidOf, hk'] at hg
+    rw [hko, hg, hsk]
+  have hoi : orig = i := by
+    apply (List.getElem?_inj (by simpa using horig_lt) hnd).1
+    simp [horig_lt, hi, hpe]
+  subst hoi
+  have hneg : ¬ ((idx : Int) < 0) := by omega
+  have htn : (idx : Int).toNat = idx := by omega
+  have hbox : (h.receivers.getD orig default).box = P.box eph (P.boxPub sk) n pk := by
+    simp [List.getD_eq_getElem?_getD, hei, hsk]
+  have hlen : (pk.length != 32) = false := by simp [hpk]
+  refine ⟨[KeyCall.unbox sk (P.boxPub eph) n (P.box eph (P.boxPub sk) n pk)], ?_⟩
+  simp only [Decrypt.tryVisible, hlook, hneg, htn, horig, h2, hn, hbox, unbox_box P hP, hlen,
+    if_false, Bool.false_eq_true]
+
+/-- hidden recipient: the lookup finds nothing, the walk over the hidden entries
+    with the single key stops at position `i` -/
+theorem tryHidden_hit (P : Prims) (hP : P.Lawful) {v : Version} (hv : v = v1 ∨ v = v2)
+    (sender : Option Bytes) (rs : List Recipient) (eph pk : Bytes) (hpk : pk.length = 32)
+    (hpub : ∀ r ∈ rs, r.hidden = false → r.pub ≠ [])
+    (hnd : (rs.map (·.pub)).Nodup)
+    (i : Nat) (hi : i < rs.length) (sk : Bytes) (hsk : rs[i].pub = P.boxPub sk)
+    (hns : NoSpuriousOpen P v eph pk rs i sk)
+    (h : EncHeader) (hhdr : header P v sender eph pk rs = .ok h)
+    (hhid : rs[i].hidden = true) :
+    Decrypt.tryVisible P (faithfulKeyring P [sk]) h (P.boxPub eph) = ([], .ok none) ∧
+    ∃ log, Decrypt.tryHidden P h (P.boxPub eph) [sk] = (log, .ok (some (sk, pk, i))) := by
+  obtain ⟨_, h2, _, _, _, h6, h7, h8⟩ := header_spec P hv sender eph pk rs h hhdr
+  constructor
+  · have hlook : (faithfulKeyring P [sk]).lookupBoxSecretKey
+        ((Decrypt.visibleIndices h.receivers).map (fun i => Decrypt.kidOf (h.receivers.getD i default))) =
+        (-1, none) := by
+      apply lookup_none
+      intro s hs k hk
+      have hs' : s = sk := by simpa using hs
+      subst hs'
+      rw [named_eq, h8] at hk
+      simp only [List.mem_map, List.mem_filter] at hk
+      obtain ⟨o, ⟨⟨r, hr, rfl⟩, hvis⟩, rfl⟩ := hk
+      intro heq
+      cases hh : r.hidden with
+      | true => simp [kidSpec, hh, visK] at hvis
+      | false =>
+        have hrp : r.pub = rs[i].pub := by
+          rw [hsk, ← heq]
+          simp [kidSpec, hh]
+        obtain ⟨j, hj, hrj⟩ := List.getElem_of_mem hr
+        have hji : j = i := by
+          apply (List.getElem?_inj (by simpa using hj) hnd).1
+          simp [hj, hi, hrj, hrp]
+        subst hji
+        rw [hrj] at hhid
+        rw [hhid] at hh
+        cases hh
+    simp only [Decrypt.tryVisible, hlook]
+  · have hil : i < h.receivers.zipIdx.length := by simp [h6, hi]
+    obtain ⟨log, hlog⟩ := tryHiddenOne_hit P v sk (P.boxPub eph) pk hpk h.receivers.zipIdx i hil
+      (by
+        intro j hj hjh
+        have hjl : j < rs.length := by omega
+        obtain ⟨n, hn, hej⟩ := h7 j hjl
+        have hejl : j < h.receivers.length := by omega
+        have hget : h.receivers[j] = ⟨kidSpec rs[j], P.box eph rs[j].pub n pk⟩ := by
+          have := List.getElem?_eq_getElem hejl
+          rw [hej] at this
+          exact (Option.some.inj this).symm
+        simp only [List.getElem_zipIdx, Nat.zero_add, hget] at hjh ⊢
+        have hjhid : rs[j].hidden = true := by
+          cases hh : rs[j].hidden with
+          | true => rfl
+          | false =>
+            have := hpub rs[j] (List.getElem_mem hjl) hh
+            simp [Decrypt.isHidden, Decrypt.kidOf, kidSpec, hh, this] at hjh
+        refine ⟨n, hn, ?_⟩
+        have := hns j hj (by simpa [List.getD_eq_getElem?_getD, hjl] using hjhid) n hn
+        simpa [List.getD_eq_getElem?_getD, hjl] using this)
+      (by
+        obtain ⟨n, hn, hei⟩ := h7 i hi
+        have heil : i < h.receivers.length := by omega
+        have hget : h.receivers[i] = ⟨kidSpec rs[i], P.box eph rs[i].pub n pk⟩ := by
+          have := List.getElem?_eq_getElem heil
+          rw [hei] at this
+          exact (Option.some.inj this).symm
+        simp only [List.getElem_zipIdx, hget]
+        simp [Decrypt.isHidden, Decrypt.kidOf, kidSpec, hhid])
+      (by
+        obtain ⟨n, hn, hei⟩ := h7 i hi
+        have heil : i < h.receivers.length := by omega
+        have hget : h.receivers[i] = ⟨kidSpec rs[i], P.box eph rs[i].pub n pk⟩ := by
+          have := List.getElem?_eq_getElem heil
+          rw [hei] at this
+          exact (Option.some.inj this).symm
+        simp only [List.getElem_zipIdx, Nat.zero_add, hget]
+        exact ⟨n, hn, by rw [hsk]; exact unbox_box P hP sk eph n pk⟩)
+    simp only [List.getElem_zipIdx, Nat.zero_add] at hlog
+    refine ⟨KeyCall.precompute sk (P.boxPub eph) :: log, ?_⟩
+    simp only [Decrypt.tryHidden, h2, hlog]
+
+/-! ### the whole header -/
+
+theorem processHeader_roundtrip (P : Prims) (hP : P.Lawful) {v : Version} (hv : v = v1 ∨ v = v2)
+    (sender : Option Bytes) (rs : List Recipient) (eph pk : Bytes) (hpk : pk.length = 32)
+    (hnamed : ∀ s, sender = some s → P.boxPub s ≠ P.boxPub eph)
+    (hpub : ∀ r ∈ rs, r.hidden = false → r.pub ≠ [])
+    (hnd : (rs.map (·.pub)).Nodup)
+    (i : Nat) (hi : i < rs.length) (sk : Bytes) (hsk : rs[i].pub = P.boxPub sk)
+    (hns : NoSpuriousOpen P v eph pk rs i sk)
+    (h : EncHeader) (hhdr : header P v sender eph pk rs = .ok h) (hh mk : Bytes)
+    (hmk : macKeySender P v i (sender.getD eph) eph rs[i].pub hh = .ok mk) :
+    ∃ log, Decrypt.processHeader P knownMajor (faithfulKeyring P [sk]) hh h =
+      (log, .ok { version := v, payloadKey := pk, headerHash := hh, macKey := mk, position := i,
+                  mki := { senderKey := P.boxPub (sender.getD eph), senderIsAnon := sender.isNone,
+                           receiverKey := sk, receiverIsAnon := rs[i].hidden,
+                           namedReceivers := (rs.filter (fun r => !r.hidden)).map (·.pub),
+                           numAnonReceivers :=
+                             if rs[i].hidden then (rs.filter (·.hidden)).length else 0 } }) := by
+  obtain ⟨h1, h2, h3, h4, h5, _, _, h8⟩ := header_spec P hv sender eph pk rs h hhdr
+  have hval := validate_ok v hv h h1 h2 h3
+  have hnamedR : (Decrypt.visibleIndices h.receivers).map
+      (fun i => Decrypt.kidOf (h.receivers.getD i default)) =
+      (rs.filter (fun r => !r.hidden)).map (·.pub) := by
+    rw [named_eq, h8, named_of_spec rs hpub]
+  have hcount : (h.receivers.filter Decrypt.isHidden).length = (rs.filter (·.hidden)).length := by
+    rw [hiddenCount_eq, h8, hiddenCount_of_spec rs hpub]
+  have hsb : P.sbOpen pk Nonce.senderKeySecretBox h.senderSecretbox = some (P.boxPub (sender.getD eph)) := by
+    rw [h5, hP.sb_open_seal]
+  have hslen : ((P.boxPub (sender.getD eph)).length != 32) = false := by simp [hP.pub_len]
+  rw [hsk] at hmk
+  obtain ⟨log3, hmac⟩ := macKey_agree P hP hv i (sender.getD eph) eph sk hh mk hmk
+  -- the sender's public key as the receiver resolves it
+  have hsender : ∀ (anon : Bool), anon = (P.boxPub eph == P.boxPub (sender.getD eph)) →
+      anon = sender.isNone ∧
+      (if anon = true then some (P.boxPub eph) else some (P.boxPub (sender.getD eph))) =
+        some (P.boxPub (sender.getD eph)) := by
+    intro anon ha
+    cases sender with
+    | none => simp at ha; subst ha; simp
+    | some s =>
+      have := hnamed s rfl
+      have hf : (P.boxPub eph == P.boxPub s) = false := by
+        simp; exact fun h => this h.symm
+      simp [hf] at ha; subst ha; simp
+  obtain ⟨hanon, hsp⟩ := hsender _ rfl
+  cases hhid : rs[i].hidden with
+  | false =>
+    obtain ⟨log1, htv⟩ := tryVisible_hit P hP hv sender rs eph pk hpk hpub hnd i hi sk hsk h hhdr hhid
+    refine ⟨log1 ++ [] ++ log3, ?_⟩
+    simp only [Decrypt.processHeader, hval, fk_import, fk_lookupPub, h4, htv, hsb, hslen, hsp, ← hanon,
+      h2, hmac, hnamedR, Bool.false_eq_true, if_false]
+  | true =>
+    obtain ⟨htv, log2, hth⟩ := tryHidden_hit P hP hv sender rs eph pk hpk hpub hnd i hi sk hsk hns h hhdr hhid
+    refine ⟨[] ++ log2 ++ log3, ?_⟩
+    simp only [Decrypt.processHeader, hval, fk_import, fk_lookupPub, fk_all, h4, htv, hth, hsb, hslen, hsp,
+      ← hanon, h2, hmac, hnamedR, hcount, Bool.false_eq_true, if_false, if_true]
+
+/-! ### the payload packets -/
+
+/-- the packets the sender built are a complete chain for a receiver whose state
+    matches, and release the plaintext -/
+theorem run_roundtrip (P : Prims) (hP : P.Lawful) (bs : Nat) (hbs : 0 < bs)
+    {v : Version} (hv : v = v1 ∨ v = v2) (pt : Bytes)
+    (hblocks : (chunkPlan v bs pt).length < 2 ^ 64 - 1)
+    (st : Decrypt.State) (hver : st.version = v) (mks : List Bytes)
+    (hmk : mks[st.position]? = some st.macKey) (blks : List EncBlock)
+    (hbl : blockStructs P v st.payloadKey st.headerHash mks (chunkPlan v bs pt) 0 = .ok blks) :
+    Decrypt.run P st (blks.map some) .eof 1 = ⟨pt, none⟩ := by
+  obtain ⟨hblen, hbp⟩ := blockStructs_spec P v st.payloadKey st.headerHash mks (chunkPlan v bs pt) 0 blks hbl
+  obtain ⟨hpne, hpp⟩ := plan_pointwise hv bs hbs pt
+  have hbne : blks ≠ [] := by
+    intro h0
+    rw [h0] at hblen
+    exact hpne (List.length_eq_zero_iff.1 hblen.symm)
+  -- block `j`, pointwise
+  have hblock : ∀ j (hj : j < blks.length) (hjp : j < (chunkPlan v bs pt).length),
+      Dec.accept P st blks[j] (j + 1) = some (chunkPlan v bs pt)[j].1 ∧
+      Decrypt.blockFinal v blks[j] = (chunkPlan v bs pt)[j].2 := by
+    intro j hj hjp
+    obtain ⟨b, hbj, hbs'⟩ := hbp j hjp
+    rw [Nat.zero_add] at hbs'
+    obtain ⟨h1, hck, _⟩ := hpp j hjp
+    have hb' : blks[j] = b := by
+      have := List.getElem?_eq_getElem hj
+      rw [hbj] at this
+      exact (Option.some.inj this).symm
+    rw [hb']
+    exact block_accept P hP st mks hver hmk j _ _ b hbs' h1 hck
+  have hchain : Chain (Dec.accept P st) (Decrypt.blockFinal v) 1 blks
+      (((chunkPlan v bs pt).map (·.1)).flatten) := by
+    apply chain_of_pointwise _ _ blks ((chunkPlan v bs pt).map (·.1)) 1 (by simp [hblen]) hbne
+    · intro j hj hj'
+      have hjp : j < (chunkPlan v bs pt).length := by omega
+      rw [Nat.add_comm 1 j, (hblock j hj hjp).1]
+      simp
+    · intro j hj
+      have hjp : j < (chunkPlan v bs pt).length := by omega
+      rw [(hblock j (by omega) hjp).2]
+      have := (hpp j hjp).2.2
+      cases hf : (chunkPlan v bs pt)[j].2 with
+      | false => rfl
+      | true => have := this.1 hf; omega
+  have hlast : ∃ b, blks.getLast? = some b ∧ Decrypt.blockFinal v b = true := by
+    have hpos : 0 < blks.length := List.length_pos_iff.mpr hbne
+    have hl : blks.length - 1 < blks.length := by omega
+    refine ⟨blks[blks.length - 1], ?_, ?_⟩
+    · rw [List.getLast?_eq_getElem?, List.getElem?_eq_getElem hl]
+    · have hjp : blks.length - 1 < (chunkPlan v bs pt).length := by omega
+      rw [(hblock _ hl hjp).2]
+      exact (hpp _ hjp).2.2.2 (by omega)
+  rw [Dec.run_eq, hver]
+  rw [Dec.accept_eq] at hchain
+  rw [grun_of_chain (Dec.step P st) (Decrypt.blockFinal v) 1 blks _ hchain hlast, chunkPlan_flatten]
+
+/-- **C01 round trip, packet level.**
+
+    `hpub` (added when the statement was proved): a *visible* recipient's key id
+    is not the empty string.  The receiver treats an empty key id like a nil one
+    (`visibleIndices` / `isHidden` test `isEmpty`), so a visible recipient with
+    an empty public key would be reported among the anonymous receivers, not the
+    named ones.  Real box public keys are 32 bytes long. -/
 theorem enc_roundtrip (P : Prims) (hP : P.Lawful) (bs : Nat) (hbs : 0 < bs)
     (v : Version) (hv : v = v1 ∨ v = v2)
     (sender : Option Bytes) (rs : List Recipient) (eph payloadKey pt : Bytes)
     (hpk : payloadKey.length = 32)
     (hnamed : ∀ s, sender = some s → P.boxPub s ≠ P.boxPub eph)
+    (hpub : ∀ r ∈ rs, r.hidden = false → r.pub ≠ [])
     (hblocks : (chunkPlan v bs pt).length < 2 ^ 64 - 1)
     (i : Nat) (hi : i < rs.length) (sk : Bytes) (hsk : (rs.getD i default).pub = P.boxPub sk)
     (hns : NoSpuriousOpen P v eph payloadKey rs i sk)
@@ -50,7 +461,25 @@ theorem enc_roundtrip (P : Prims) (hP : P.Lawful) (bs : Nat) (hbs : 0 < bs)
              receiverKey := sk, receiverIsAnon := (rs.getD i default).hidden,
              namedReceivers := (rs.filter (fun r => !r.hidden)).map (·.pub),
              numAnonReceivers := if (rs.getD i default).hidden then (rs.filter (·.hidden)).length else 0 }, pt) := by
-  sorry
+  obtain ⟨hcr, hhdr, mks, hm, hbl⟩ := sealPackets_inv P bs v sender rs eph payloadKey pt h hb blks hseal
+  obtain ⟨_, hnd⟩ := checkReceivers_inv hcr
+  have hgetD : rs.getD i default = rs[i] := by simp [List.getD_eq_getElem?_getD, hi]
+  rw [hgetD] at hsk ⊢
+  obtain ⟨mks', hm', _, hmp⟩ := macKeysSender_spec P hv (sender.getD eph) eph (P.hash hb) rs 0
+  rw [hm] at hm'
+  cases hm'
+  obtain ⟨mk, hmk, hmki⟩ := hmp i hi
+  rw [Nat.zero_add] at hmk
+  obtain ⟨log, hph⟩ := processHeader_roundtrip P hP hv sender rs eph payloadKey hpk hnamed hpub hnd i hi sk hsk
+    hns h hhdr (P.hash hb) mk hmk
+  have hrun := run_roundtrip P hP bs hbs hv pt hblocks
+    { version := v, payloadKey := payloadKey, headerHash := P.hash hb, macKey := mk, position := i,
+      mki := { senderKey := P.boxPub (sender.getD eph), senderIsAnon := sender.isNone,
+               receiverKey := sk, receiverIsAnon := rs[i].hidden,
+               namedReceivers := (rs.filter (fun r => !r.hidden)).map (·.pub),
+               numAnonReceivers := if rs[i].hidden then (rs.filter (·.hidden)).length else 0 } }
+    rfl mks hmki blks hbl
+  simp only [Decrypt.openAll, Decrypt.openStream, hph, hrun]
 
 /-- a keyring that holds none of the recipient keys, and whose keys open none of
     the boxes, gets `noDecryptionKey` and no plaintext -/
@@ -66,7 +495,46 @@ theorem enc_no_key (P : Prims) (hP : P.Lawful) (bs : Nat)
     Decrypt.openAll P knownMajor (faithfulKeyring P sks) (.ok hb h) ⟨blks.map some, .eof⟩ =
       .error .noDecryptionKey ∧
     (Decrypt.openStream P knownMajor (faithfulKeyring P sks) (.ok hb h) ⟨blks.map some, .eof⟩).released = [] := by
-  sorry
+  have _ := hP
+  obtain ⟨_, hhdr, _, _, _⟩ := sealPackets_inv P bs v sender rs eph payloadKey pt h hb blks hseal
+  obtain ⟨h1, h2, h3, h4, _, h6, h7, h8⟩ := header_spec P hv sender eph payloadKey rs h hhdr
+  have hval := validate_ok v hv h h1 h2 h3
+  have hlook : (faithfulKeyring P sks).lookupBoxSecretKey
+      ((Decrypt.visibleIndices h.receivers).map (fun i => Decrypt.kidOf (h.receivers.getD i default))) =
+      (-1, none) := by
+    apply lookup_none
+    intro s hs k hk
+    rw [named_eq, h8] at hk
+    simp only [List.mem_map, List.mem_filter] at hk
+    obtain ⟨o, ⟨⟨r, hr, rfl⟩, hvis⟩, rfl⟩ := hk
+    unfold kidSpec at hvis ⊢
+    cases hh : r.hidden with
+    | true => simp [hh, visK] at hvis
+    | false => simpa [hh] using hnone s hs r hr
+  have htv : Decrypt.tryVisible P (faithfulKeyring P sks) h h.ephemeral = ([], .ok none) := by
+    simp only [Decrypt.tryVisible, hlook]
+  obtain ⟨log, hlog⟩ : ∃ log, Decrypt.tryHidden P h h.ephemeral sks = (log, .ok none) := by
+    apply tryHidden_miss
+    intro s hs q hq _
+    obtain ⟨e, j⟩ := q
+    rw [List.mem_zipIdx_iff_getElem?] at hq
+    simp only at hq ⊢
+    have hj : j < rs.length := by
+      rw [← h6]
+      exact (List.getElem?_eq_some_iff.1 hq).1
+    obtain ⟨n, hn, he⟩ := h7 j hj
+    rw [hq] at he
+    cases he
+    refine ⟨n, by rw [h2]; exact hn, ?_⟩
+    rw [h4]
+    have := hopen s hs j hj n hn
+    simpa [List.getD_eq_getElem?_getD, hj] using this
+  have hph : Decrypt.processHeader P knownMajor (faithfulKeyring P sks) (P.hash hb) h =
+      ([] ++ log, .error .noDecryptionKey) := by
+    simp only [Decrypt.processHeader, hval, fk_import, htv, fk_all, hlog]
+  constructor
+  · simp only [Decrypt.openAll, Decrypt.openStream, hph]
+  · simp only [Decrypt.openStream, hph]
 
 /-- sealing succeeds for every legal input (so the round trip is not vacuous) -/
 theorem sealPackets_ok (P : Prims) (bs : Nat) (v : Version) (hv : v = v1 ∨ v = v2)
@@ -75,6 +543,28 @@ theorem sealPackets_ok (P : Prims) (bs : Nat) (v : Version) (hv : v = v1 ∨ v =
     (hblocks : (chunkPlan v bs pt).length < 2 ^ 64 - 1) :
     ∃ h hb blks, sealPackets P bs v sender rs eph payloadKey pt = .ok (h, hb, blks) ∧
       blks.length = (chunkPlan v bs pt).length ∧ h.receivers.length = rs.length := by
-  sorry
+  have hkv := knownVersion_of hv
+  have hcr : checkReceivers rs = .ok () := by
+    have h1 : rs.isEmpty = false := by
+      cases rs with
+      | nil => exact absurd rfl hrs
+      | cons _ _ => rfl
+    have h2 : Gen.c_sp_maxReceiverCount.toNat = 4294967295 := by decide
+    have h3 : ¬ (rs.length > 4294967295) := by omega
+    simp only [checkReceivers, h1, h2, h3, hd, if_true, if_false, Bool.false_eq_true]
+  obtain ⟨h, hh, hlen⟩ : ∃ h, header P v sender eph payloadKey rs = .ok h ∧
+      h.receivers.length = rs.length := by
+    obtain ⟨es, he, hl, _⟩ := receiverEntries_spec P hv eph payloadKey rs 0
+    refine ⟨{ formatName := Gen.c_sp_FormatName, version := v, typ := mtEncryption,
+              ephemeral := P.boxPub eph,
+              senderSecretbox := P.sbSeal payloadKey Nonce.senderKeySecretBox (P.boxPub (sender.getD eph)),
+              receivers := es }, ?_, hl⟩
+    simp only [header, he]
+  obtain ⟨mks, hm, _, _⟩ := macKeysSender_spec P hv (sender.getD eph) eph
+    (P.hash (Msgpack.encode h.toVal)) rs 0
+  obtain ⟨blks, hb, hbl⟩ := blockStructs_ok P hv payloadKey
+    (P.hash (Msgpack.encode h.toVal)) mks (chunkPlan v bs pt) 0 (by omega)
+  refine ⟨h, Msgpack.encode h.toVal, blks, ?_, hbl, hlen⟩
+  simp only [sealPackets, hkv, hh, hcr, hm, hb, Bool.not_true, Bool.false_eq_true, if_false]
 
 end Saltpack.Proofs
